@@ -323,6 +323,34 @@ struct Exec
                     continue;
                 }
                 auto parent = pe->parent();
+                if (r.chance(1, 2)) {
+                    // a cousin instead of a sibling: the twin goes into another container of the same kind, so that a
+                    // search below a common ancestor meets both
+                    bool wantModel = std::dynamic_pointer_cast<Units>(t) != nullptr;
+                    std::vector<ParentedEntityPtr> others;
+                    for (size_t j = 0; j < n; ++j) {
+                        auto cand = std::dynamic_pointer_cast<ParentedEntity>(w.ent(int(j)));
+                        if (cand == nullptr || cand == parent || cand == pe) {
+                            continue;
+                        }
+                        bool isModel = std::dynamic_pointer_cast<Model>(cand) != nullptr;
+                        bool isComp = std::dynamic_pointer_cast<Component>(cand) != nullptr;
+                        if (wantModel ? !isModel : !isComp) {
+                            continue;
+                        }
+                        // never below the entity the twin copies (a component twin inside its original's subtree is fine, but keep it simple)
+                        auto comp = std::dynamic_pointer_cast<Component>(cand);
+                        auto orig = std::dynamic_pointer_cast<Component>(e);
+                        if (comp != nullptr && orig != nullptr && (comp == orig || comp->hasAncestor(orig))) {
+                            continue;
+                        }
+                        others.push_back(cand);
+                    }
+                    if (!others.empty()) {
+                        parent = others[r.below(others.size())];
+                        ctx.count("lookalike_cousins_made");
+                    }
+                }
                 if (auto c = std::dynamic_pointer_cast<Component>(t)) {
                     std::dynamic_pointer_cast<ComponentEntity>(parent)->addComponent(c);
                 } else if (auto v = std::dynamic_pointer_cast<Variable>(t)) {
@@ -525,20 +553,12 @@ struct Exec
             }
         }
         if (formIsReplace(form) && c.y >= 0) {
-            // replacing by an entity that the affected container already holds is the excluded call in disguise
-            auto outs = specContainer(cur, c);
+            // replacing by an entity that the affected container already holds: the specification permits a refusal
+            // (what the library does) or the move, never anything else
             for (int k : scope) {
                 if (k == c.y) {
-                    p.skip = true;
-                    return p;
-                }
-            }
-            if (cur[size_t(c.y)].parent >= 0) {
-                for (auto &o : outs) {
-                    if (o.s[size_t(c.y)].parent == cur[size_t(c.y)].parent && o.ret == "true") {
-                        p.skip = true;
-                        return p;
-                    }
+                    tags.push_back("replacement-already-in-scope");
+                    break;
                 }
             }
         }
